@@ -127,11 +127,13 @@ def job(args):
         phi_int = Box(atom_array(('phi',), w.N, offset=tuple(ONE for _ in w.N)))
         _bcache = {}
 
-        def bsys(per_axes):
-            """(ghost array, boundary matrix, boundary rhs) with the faces of the given axes flagged periodic"""
-            key = tuple(sorted(per_axes))
+        def bsys(per_axes, which='both'):
+            """(ghost array, boundary matrix, boundary rhs) with the faces of the given axes flagged periodic (both faces, or
+            only the low / high one: a single flag already declares the axis periodic)"""
+            key = (tuple(sorted(per_axes)), which)
             if key not in _bcache:
-                bc = w.boundary_conditions(periodic={f for k in key for f in FACE_OF[k]})
+                pick = {'both': (0, 1), 'low': (0,), 'high': (1,)}[which]
+                bc = w.boundary_conditions(periodic={FACE_OF[k][j] for k in key[0] for j in pick})
                 gh = snap(w.call('boundary', 'cellValuesWithBoundaries', phi_int, bc))
                 Mb, Rb = w.call('boundary', 'boundaryConditionsTerm', bc)
                 _bcache[key] = (gh, Mb, Rb)
@@ -165,11 +167,11 @@ def job(args):
             sw = {a: b, b: a}
             # the same relabelling must hold when an axis is declared periodic: periodic along p on one side of the
             # identity, periodic along swap(p) on the other
-            for per in ((), (a,), (b,)):
+            for per, which in (((), 'both'), ((a,), 'both'), ((b,), 'both'), ((a,), 'low'), ((b,), 'high')):
                 per_t = tuple(sw.get(k, k) for k in per)
-                ghost1, Mb1, Rb1 = bsys(per)
-                ghost2, Mb2, Rb2 = bsys(per_t)
-                ptxt = f"/periodic={''.join(AX[k] for k in per)}" if per else ''
+                ghost1, Mb1, Rb1 = bsys(per, which)
+                ghost2, Mb2, Rb2 = bsys(per_t, which)
+                ptxt = (f"/periodic={''.join(AX[k] for k in per)}" + ('' if which == 'both' else f"[{which} flag only]")) if per else ''
                 for side_val, nm in ((ZERO, 'low'), (None, 'high')):
                     G = tuple((ZERO if nm == 'low' else w.N[a] + 1) if k == a else w.t[k] for k in range(d))
                     Gt = list(G)
@@ -354,6 +356,10 @@ def finalize(sm, rep, tier, results):
     rep.floor('embedding obligations', sum(1 for o in rep.obs if o['rule'] == 'A2'), 80)
     rep.floor('mirror obligations', sum(1 for o in rep.obs if o['rule'] == 'A3'), 50)
     rep.floor('seam obligations', sum(1 for o in rep.obs if o['rule'] == 'A4'), 60)
+    # positive control: the axis renaming must distinguish an expression that is not symmetric under the swap
+    fx, fy = Rat.atom(('f', 'x', Rat.const(1))), Rat.atom(('f', 'y', Rat.const(1)))
+    sw = axis_permutation({'x': 'y', 'y': 'x', 'z': 'z'})
+    rep.control('A1 separates 2*fx+fy from its x<->y image and accepts fx+fy', not is_zero(deep_map(2 * fx + fy, sw) - (2 * fx + fy)) and is_zero(deep_map(fx + fy, sw) - (fx + fy)))
     rep.samples.append(dict(rule='A1', example='Grid3D diffusion: row (tx,ty,tz) with x<->z swapped in every atom equals row (tz,ty,tx) of the same builder'))
 
 
